@@ -115,6 +115,22 @@ def _run_chunk(chunk):
             rt = shrink_types([get_type(x, k) for x in reals], k)
             rt2 = shrink_types([get_type(x, k) for x in reversed(reals)], k)
             out.append(run_type(job["tid"], rt, [("values_seen_in_reverse_order", rt2)]))
+        elif job["kind"] == "call_rebound":
+            # decode a trace of mod_func, then re-bind the name to a NEW function object (a reloaded module, a re-run cell)
+            # and decode a trace of that one: it must come back as the function the name denotes NOW
+            import types as _types
+            from mtfx import funcs as fm
+            from monkeytype.encoding import CallTraceRow
+            from monkeytype.tracing import CallTrace
+            orig = fm.mod_func
+            try:
+                CallTraceRow.from_trace(CallTrace(orig, {"a": int}, int, None)).to_trace()
+                new = _types.FunctionType(orig.__code__, orig.__globals__, "mod_func", orig.__defaults__)
+                new.__qualname__, new.__module__ = orig.__qualname__, orig.__module__
+                fm.mod_func = new
+                out.append(run_call(job["tid"], "mod_func(re-bound)", new, {"a": int, "b": str}, int, None))
+            finally:
+                fm.mod_func = orig
         else:
             f = funcs[job["func"]]
             ts = [absmodel.real_type(t, make_td=mk) for t in job["types"]]
@@ -186,6 +202,7 @@ def gen_jobs(tier, seed, env_text):
     add("call traces: every fixture function x ret/yield in {absent, NoneType, type}",
         [{"kind": "call", "func": f, "types": [t, rng.choice(tpool)], "ret": r, "yld": y}
          for f in fnames for t in tpool for r in ("absent", "none", "type") for y in ("absent", "none", "type")])
+    add("a function name re-bound to a new function object between two decodes in one process", [{"kind": "call_rebound"} for _ in range(3)])
     return jobs, plan
 
 
